@@ -142,7 +142,13 @@ func init() {
 				for j := range pts {
 					pts[j] = [2]int{iv(20), iv(20)}
 				}
-				mpts := orb.MultiPoint(ringOf(pts, 1))
+				// the multi point is the head of a longer buffer (spare capacity holding foreign points): measuring is a
+				// read-only question, also for what lies behind a member
+				buf := append(orb.MultiPoint(ringOf(pts, 1)), orb.Point{777, -777}, orb.Point{-778, 778}, orb.Point{779, 779})
+				mpts := buf[:k]
+				spareOK := func() int {
+					return b2i(buf[k] == orb.Point{777, -777} && buf[k+1] == orb.Point{-778, 778} && buf[k+2] == orb.Point{779, 779})
+				}
 				cen, a := planar.CentroidArea(mpts)
 				c.emit(map[string]interface{}{"k": "cpts", "pts": pts, "area2": int(2 * a), "cx": rnd(cen[0], 1000), "cy": rnd(cen[1], 1000), "nt": 1})
 				line := [][2]int{{iv(5), iv(5)}}
@@ -160,10 +166,20 @@ func init() {
 				colp := orb.Collection{mpts, orb.Point{float64(pts[0][0]), float64(pts[0][1])}}
 				allp := append(append([][2]int{}, pts...), pts[0])
 				cen, a = planar.CentroidArea(colp)
-				c.emit(map[string]interface{}{"k": "ccoll", "dim": 0, "pts": allp, "line": [][2]int{}, "lens": []int{}, "area2": int(2 * a), "cx": rnd(cen[0], 1000), "cy": rnd(cen[1], 1000), "nt": 1})
+				c.emit(map[string]interface{}{"k": "ccoll", "dim": 0, "pts": allp, "line": [][2]int{}, "lens": []int{}, "area2": int(2 * a), "cx": rnd(cen[0], 1000), "cy": rnd(cen[1], 1000), "nt": 1, "ro": spareOK()})
+				// the line as the only member of a multi line string that is itself the head of a longer one
+				mbuf := orb.MultiLineString{ls, orb.LineString{{555, 555}, {556, 556}}}
 				coll := orb.Collection{ls, mpts}
+				if c.rng.Intn(2) == 0 {
+					coll = orb.Collection{mbuf[:1], mpts, orb.LineString{}}
+				}
 				cen, a = planar.CentroidArea(coll)
-				c.emit(map[string]interface{}{"k": "ccoll", "dim": 1, "pts": pts, "line": line, "lens": lens, "area2": int(2 * a), "cx": rnd(cen[0], 1000), "cy": rnd(cen[1], 1000), "nt": 1})
+				ro := spareOK() * b2i(len(mbuf[1]) == 2 && mbuf[1][0] == orb.Point{555, 555} && mbuf[1][1] == orb.Point{556, 556})
+				planar.Area(coll)
+				planar.Length(coll)
+				planar.DistanceFrom(coll, orb.Point{1, 1})
+				ro *= spareOK() * b2i(len(mbuf[1]) == 2 && mbuf[1][0] == orb.Point{555, 555})
+				c.emit(map[string]interface{}{"k": "ccoll", "dim": 1, "pts": pts, "line": line, "lens": lens, "area2": int(2 * a), "cx": rnd(cen[0], 1000), "cy": rnd(cen[1], 1000), "nt": 1, "ro": ro})
 			case 3, 4: // point-segment distance, |v| <= 8
 				a, b, p := [2]int{iv(8), iv(8)}, [2]int{iv(8), iv(8)}, [2]int{iv(8), iv(8)}
 				if c.rng.Intn(8) == 0 {
@@ -343,6 +359,63 @@ func init() {
 				}
 				if d == 0 {
 					e["zero"] = 1
+				}
+				c.emit(e)
+			case 7:
+				if i%3 == 0 {
+					// a long line: n vertices one unit apart (a staircase): its length is n - 1, through every kind that can hold it
+					n := []int{500, 512, 513, 514, 1024, 1025, 2049, 5000}[c.rng.Intn(8)]
+					ls := make(orb.LineString, n)
+					for j := range ls {
+						ls[j] = orb.Point{float64((j + 1) / 2), float64(j / 2)}
+					}
+					var g orb.Geometry = ls
+					switch c.rng.Intn(5) {
+					case 0:
+						g = orb.Ring(ls)
+					case 1:
+						g = orb.MultiLineString{ls, {{0, 0}, {0, 1}}}
+						n++
+					case 2:
+						g = orb.Collection{ls, orb.Point{1, 1}}
+					case 3:
+						g = orb.Polygon{orb.Ring(ls)}
+					}
+					e := map[string]interface{}{"k": "lenbig", "n": n, "nt": 1}
+					setCurrent("planar.Length(long)", e)
+					var L float64
+					if site := guard(func() { L = planar.Length(g) }); site != "" {
+						c.emit(panicEvent("planar.Length", site, e))
+						continue
+					}
+					e["q"] = rnd(L, 100)
+					c.emit(e)
+					continue
+				}
+				// a small ring of arbitrary floats far from the origin, and the same ring moved to the origin by an exact translation: the
+				// same area to a relative 1e-9 (in units of 1e-12), and Area = the area CentroidArea reports
+				k := 3 + c.rng.Intn(6)
+				T := []float64{1 << 20, -(1 << 20), 1 << 19, 3 << 18}[c.rng.Intn(4)]
+				r0, r1 := make(orb.Ring, k), make(orb.Ring, k)
+				for j := range r1 { // arbitrary floats far out; the near ring is the far one moved back (an exact subtraction)
+					r1[j] = orb.Point{T + c.rng.Float64()*6, -T/2 + c.rng.Float64()*6}
+					r0[j] = orb.Point{r1[j][0] - T, r1[j][1] + T/2}
+				}
+				e := map[string]interface{}{"k": "areafar", "nt": 1}
+				setCurrent("planar.Area(far)", e)
+				site := guard(func() {
+					a0, a1 := planar.Area(r0), planar.Area(r1)
+					_, ca1 := planar.CentroidArea(r1)
+					p0, p1 := planar.Area(orb.Polygon{r0}), planar.Area(orb.MultiPolygon{{r1}})
+					rel := func(x, y float64) int {
+						// (relative to the area, or to one square unit for rings - they may cross themselves - that enclose less)
+						return clipInt(math.Abs(x-y) / math.Max(math.Abs(y), 1) * 1e12)
+					}
+					e["rel"] = []int{rel(a1, a0), rel(ca1, a0), rel(math.Abs(p1), math.Abs(p0)), rel(math.Abs(p0), math.Abs(a0))}
+				})
+				if site != "" {
+					c.emit(panicEvent("planar.Area", site, e))
+					continue
 				}
 				c.emit(e)
 			default: // Length: sum of segment lengths, bracketed by integer square roots per segment
